@@ -101,15 +101,17 @@ def check_table(st: Stats, n: int, v, tag: str) -> None:
         st.violation(f"[denormalize n={n} {tag}] de-normalising does not restore the game: {back} vs {list(v)}", **doc)
 
 
-def check_graph(st: Stats, n: int, name: str, seed: int) -> None:
+def check_graph(st: Stats, n: int, name: str, seed: int, scale: float = 1.0) -> None:
     """A graph game and its tabulated form normalise to the same values; graph de-normalisation restores the values."""
     from incomplete_cooperative.graph_game import GraphCooperativeGame
     from incomplete_cooperative.normalize import denormalize_game, normalize_game
-    doc = {"n": n, "generator": name, "gen_seed": seed, "tag": f"graph:{name}:{seed}"}
+    doc = {"n": n, "generator": name, "gen_seed": seed, "tag": f"graph:{name}:{seed}:x{scale}", "scale": scale}
     try:
         g = gens.draw_game(name, n, seed)
         if not isinstance(g, GraphCooperativeGame):
             return
+        if scale != 1.0:
+            g = GraphCooperativeGame(np.asarray(g._graph_matrix) * scale)
         v = tuple(float(x) for x in g.get_values())
         doc["values"] = list(v)
         doc["matrix"] = np.asarray(g._graph_matrix).tolist() if hasattr(g, "_graph_matrix") else None
@@ -165,6 +167,7 @@ def unit(u) -> Stats:
                 continue
             check_table(st, n, v, f"gen:{name}:{s}")
             check_graph(st, n, name, s)
+            check_graph(st, n, name, s, 2.0 ** -40)
             if st.nviol >= 3:
                 break
         if name == "xos2" and n == 3:
@@ -190,10 +193,14 @@ def run(run: Run) -> None:
     quick, seed = run.quick, run.seed
     us: list = []
     g3 = [(f"{tag}#{i}", gv) for i, g in enumerate(A.a3_sa()) for tag, gv in A.with_shifts([g], 3)]
+    # small units: the surplus is tiny in ABSOLUTE terms but of order 1 relative to the game (zone A: must normalise like any other game)
+    g3 += [(f"tiny40#{i}", A.scaled(g, 2.0 ** -40)) for i, g in enumerate(A.a3_sa())]
+    g3 += [(f"tiny30-shift#{i}", A.scaled(A.shifted(g, A.ADD3), A.TINY)) for i, g in enumerate(A.a3_sa()) if i % 2 == seed % 2]
     for i in range(0, len(g3), 256):
         us.append(("games", 3, g3[i:i + 256]))
     reps = A.a4_sa_reps(seed) if quick else A.a4_sa_full()
     g4 = [(f"{tag}#{i}", gv) for i, g in enumerate(reps) for tag, gv in A.with_shifts([g], 4)]
+    g4 += [(f"tiny40#{i}", A.scaled(g, 2.0 ** -40)) for i, g in enumerate(reps)]
     for i in range(0, len(g4), 256):
         us.append(("games", 4, g4[i:i + 256]))
     # additive members and nearly additive games
@@ -226,7 +233,7 @@ def run(run: Run) -> None:
 def replay(doc: dict):
     st = Stats()
     if doc.get("generator"):
-        check_graph(st, doc["n"], doc["generator"], doc["gen_seed"])
+        check_graph(st, doc["n"], doc["generator"], doc["gen_seed"], doc.get("scale", 1.0))
     else:
         check_table(st, doc["n"], tuple(doc["values"]), doc.get("tag", "replay"))
     msgs = [v["message"] for v in st.violations]
